@@ -240,6 +240,17 @@ theorem first_unpruned_monotone (es es' : List Event) :
   rw [run_append]
   exact firstInWindow_mono' (Ext.run es' (run init es)).1
 
+/-- **The asserts of votor.rs are unreachable**: as long as the pool announces `ParentReady` only for
+    the first slot of a window (what `set_timeouts` asserts; the pool's contract), no event list makes
+    Votor panic — in particular the three `slot >= first_unpruned_slot()` asserts of `try_notar`,
+    `try_final`, `try_skip_window` can never fire, also not from `check_pending_blocks` after pruning. -/
+theorem votor_asserts_unreachable (es : List Event) (hwf : ∀ e ∈ es, e.wellFormed) :
+    (run init es).panicked = false :=
+  run_panicked es Inv.init hwf
+
+/-- the hypothesis is needed: `ParentReady` for a slot inside a window trips `set_timeouts`' assert -/
+theorem parent_ready_mid_window_panics : (run init [.parentReady 5 0 0]).panicked = true := by decide
+
 /-! ## non-vacuity: concrete histories in which the votes of the theorems are really cast -/
 
 /-- block of slot 1 on genesis, its notarization certificate: notar vote, then finalize vote -/
